@@ -409,6 +409,9 @@ func (z *ZKServer) rawSet(path string, data string) {
 			z.tree[cur] = &znode{children: map[string]bool{}, czxid: z.zxid, mzxid: z.zxid}
 			z.tree[par].children[p] = true
 			z.tree[par].cversion++
+			if i != len(parts)-1 {
+				z.record(ZKEvent{Op: "create", Inc: "external", Path: cur})
+			}
 		}
 		if i == len(parts)-1 {
 			n := z.tree[cur]
